@@ -78,7 +78,7 @@ Section SystemLive.
     so_me : forall n, In n nodes -> 0 <= nd_me n /\ memb (nd_me n) (g_members G) = true;
     so_own : forall n, In n nodes -> forall r p,
                idx_of (snd n (g_poly G) r p) = nd_me n /\ vpart (g_poly G) r p (snd n (g_poly G) r p) = true;
-    so_clock : forall n, In n nodes -> rmax <= fst (next_round (s_now (fst n)) (c_period C) (c_genesis C));
+    so_clock : forall n, In n nodes -> rmax <= current_round (s_now (fst n)) (c_period C) (c_genesis C);
     so_thr : 1 <= g_thr G <= Z.of_nat (length nodes)
   }.
 
@@ -101,7 +101,8 @@ Section SystemLive.
       destruct (so_grp _ _ _ _ H m Hm) as [-> _]. reflexivity. }
     set (ps := filter (fun p => negb (idx_of p =? idx_of (nd_partial n))) (map nd_partial nodes)).
     apply (node_round_completes C idx_of vpart recov vrec (snd n) recov_complete limit_nonneg vrec_unchained
-             (fst n) hb (b_round hb + 1) ps Hrd Hhd ltac:(lia)).
+             (fst n) hb (b_round hb + 1) ps Hrd Hhd ltac:(lia)
+             ltac:(pose proof (so_clock _ _ _ _ H n Hin); lia)).
     - rewrite Gp. apply (so_own _ _ _ _ H n Hin).
     - intros sg Hsg. unfold ps in Hsg. apply filter_In in Hsg as [Hsg Hne].
       apply in_map_iff in Hsg as [m [<- Hm]].
@@ -111,7 +112,8 @@ Section SystemLive.
       destruct (so_me _ _ _ _ H m Hm) as [M1 M2].
       unfold good_partial. rewrite Gp, Gm, Om. repeat split; try assumption.
       + rewrite On in Hne. rewrite Om in Hne. fold (nd_me n). destruct (Z.eqb_spec (nd_me m) (nd_me n)); [discriminate|assumption].
-      + pose proof (so_clock _ _ _ _ H n Hin). lia.
+      + pose proof (so_clock _ _ _ _ H n Hin) as Hck. unfold current_round in Hck.
+        destruct (fst (next_round (s_now (fst n)) (c_period C) (c_genesis C)) <=? 1) eqn:En1; [apply Z.leb_le in En1|apply Z.leb_gt in En1]; lia.
     - unfold ps. apply NoDup_filter_map.
       assert (E : map idx_of (map nd_partial nodes) = map nd_me nodes).
       { rewrite map_map. apply map_ext_in. intros m Hm. apply (partial_idx G nodes hb rmax m H Hm). }
